@@ -10,6 +10,7 @@ from fv import core, equiv  # noqa: E402
 
 prog = core.Program(os.environ.get('VERIF_REPO', '/repo'))
 sigs = equiv.SignatureIndex(prog.modules.values())
+equiv._ACTIVE_SIGS = sigs
 for name, mod in sorted(prog.modules.items()):
     ref_src = equiv.pinned_sources().get(name)
     if ref_src is None or ref_src == mod.source:
